@@ -25,7 +25,7 @@ const c12Block = 625 // prefixes per case (5^4)
 func (e *C12) ID() string    { return "C12" }
 func (e *C12) Level() string { return "exploration" }
 func (e *C12) Rule() string {
-	return "section A (exhaustive): every prefix over the signature alphabet {I, M, *, 0x00, other} of length 0..7 (quick) / 0..10 (thorough), followed by an II or MM header with a random first-IFD offset and >= 28 further bytes, searched through a *bufio.Reader (sizes 32, 33, 64, 4096) and through a plain reader; section B: random prefixes up to 16 KiB built from alphabet runs and random bytes, with the signature placed at every offset 4060..4100 and 8150..8200 (buffer refill boundaries), streams without any signature, and streams whose only signature has fewer than 28 bytes after it. Oracle: a naive search of the same bytes in the harness gives the first signature index; the reported TiffHeaderOffset, byte order and FirstIfdOffset must match it, the bufio.Reader must afterwards stand exactly on the reported signature, and ErrNoExif is returned exactly when no signature has 28 bytes after it. Non-trivial: the prefix contains a proper partial signature; distinct = distinct (prefix, header) for section A, (offset, buffer size) for B."
+	return "section A (exhaustive): every prefix over the signature alphabet {I, M, *, 0x00, other} of length 0..7 (quick) / 0..10 (thorough), followed by an II or MM header with a random first-IFD offset and >= 28 further bytes, searched through a *bufio.Reader (sizes 32, 33, 64, 4096) and through a plain reader; section B: random prefixes up to 16 KiB built from alphabet runs and random bytes, with the signature placed at every offset 4060..4100 and 8150..8200 (buffer refill boundaries), streams without any signature, and streams whose only signature has fewer than 28 bytes after it. section C (exhaustive): every single-byte variation of II*\\0 and MM\\0* as a near miss in front of a real header and in a stream without one; section D: streams of 64 KiB to 3 MiB that start like a HEIF / JPEG / RW2 / CR3 file or with random bytes, the signature behind them; the image-type argument is varied (it labels the result and must not steer the search). Oracle: a naive search of the same bytes in the harness gives the first signature index; the reported TiffHeaderOffset, byte order and FirstIfdOffset must match it, the bufio.Reader must afterwards stand exactly on the reported signature, and ErrNoExif is returned exactly when no signature has 28 bytes after it. Non-trivial: the prefix contains a proper partial signature; distinct = distinct (prefix, header) for section A, (offset, buffer size) for B."
 }
 func (e *C12) Assumptions() []string {
 	return []string{"bufio.Reader arguments have a buffer of at least 32 bytes (the search peeks 32)"}
@@ -56,13 +56,18 @@ func c12Total(L int) int {
 	return t
 }
 
+const (
+	c12Near = 16 // 2 signatures x 4 positions x 256 values, 128 per case
+	c12Long = 24 // streams of 64 KiB .. 3 MiB
+)
+
 func (e *C12) Plan(tier string, seed uint64) int {
 	nA := (c12Total(c12MaxLen(tier)) + c12Block - 1) / c12Block
 	nB := 600
 	if tier == "thorough" {
 		nB = 12000
 	}
-	return nA + nB
+	return nA + nB + c12Near + c12Long
 }
 func (e *C12) MinNontrivial(tier string) int { return 1000 }
 
@@ -131,10 +136,15 @@ func c12Check(c *core.Ctx, stream []byte, what string) {
 			}
 		}
 	}
-	for _, sz := range []int{32, 33, 64, 4096} {
+	its := []imagetype.ImageType{imagetype.ImageUnknown, imagetype.ImageHEIF, imagetype.ImageTiff, imagetype.ImageCR2, imagetype.ImagePanaRAW, imagetype.ImageJPEG}
+	for i, sz := range []int{32, 33, 64, 4096} {
+		if len(stream) > 1<<17 && sz < 4096 {
+			continue // long streams: one buffered and one plain search
+		}
 		br := bufio.NewReaderSize(mon.NewRS(stream), sz)
-		h, err := tiff.ScanTiffHeader(br, imagetype.ImageUnknown)
-		check(fmt.Sprintf("bufio(%d)", sz), h, err, br)
+		it := its[(i+len(stream))%len(its)] // the image-type argument is a label for the result, not a search parameter
+		h, err := tiff.ScanTiffHeader(br, it)
+		check(fmt.Sprintf("bufio(%d) it=%v", sz, it), h, err, br)
 	}
 	h, err := tiff.ScanTiffHeader(mon.OnlyReader{R: mon.NewRS(stream)}, imagetype.ImageHEIF)
 	check("plain reader", h, err, nil)
@@ -176,6 +186,56 @@ func (e *C12) Run(c *core.Ctx, idx int) {
 		}
 		if c.Rec.WantSample() && idx%13 == 5 {
 			c.Rec.Sample(map[string]any{"kind": "exhaustive prefixes", "first_prefix": fmt.Sprintf("%q", prefixByIndex(idx*c12Block)), "count": c12Block, "headers": "II and MM"})
+		}
+		return
+	}
+	nB := e.Plan(c.Tier, c.Seed) - nA - c12Near - c12Long
+	if idx >= nA+nB+c12Near {
+		// section D: long streams (a search must not give up, whatever the stream starts with)
+		k := idx - nA - nB - c12Near
+		n := []int{65536, 1<<20 - 40, 1 << 20, 1<<20 + 31, 1<<20 + 4097, 3 << 20}[k%6]
+		heads := []string{"", "\x00\x00\x00\x18ftypheic\x00\x00\x00\x00mif1heic\x00\x00\x00\x08free", "\x00\x00\x00\x1cftypmif1\x00\x00\x00\x00mif1heic", "\xff\xd8\xff\xe0\x00\x10JFIF", "IIU\x00\x18\x00\x00\x00", "\x00\x00\x00\x18ftypcrx \x00\x00\x00\x01crx isom"}
+		pre := make([]byte, n)
+		fill := r.Bytes(4096)
+		for i := 0; i < n; i += 4096 {
+			copy(pre[i:], fill)
+		}
+		copy(pre, heads[(k/6)%len(heads)])
+		gen.ScrubTIFFSig(pre, 0, len(pre))
+		s := append(pre, mkHeader(k%2 == 0)...)
+		tail := r.Bytes(64)
+		gen.ScrubTIFFSig(tail, 0, len(tail))
+		c12Check(c, append(s, tail...), fmt.Sprintf("long stream: %d bytes (head %q) before the signature", n, heads[(k/6)%len(heads)]))
+		c.Rec.SigHash(core.HashStr(fmt.Sprintf("D|%d|%d", n, (k/6)%len(heads))))
+		return
+	}
+	if idx >= nA+nB {
+		// section C (exhaustive): every single-byte variation of both signatures, as a near miss in
+		// front of a real header and alone in a stream without any signature
+		k := idx - nA - nB
+		for j := k * 128; j < (k+1)*128; j++ {
+			sig := []byte("II*\x00")
+			if j/1024 == 1 {
+				sig = []byte("MM\x00*")
+			}
+			pos, val := (j%1024)/256, byte(j%256)
+			if sig[pos] == val {
+				continue
+			}
+			near := append([]byte(nil), sig...)
+			near[pos] = val
+			body := r.Bytes(40)
+			gen.ScrubTIFFSig(body, 0, len(body))
+			lead := r.Bytes(r.Intn(9))
+			gen.ScrubTIFFSig(lead, 0, len(lead))
+			pre := append(append(lead, near...), body...)
+			gen.ScrubTIFFSig(pre[len(lead)+1:], 0, len(pre)-len(lead)-1) // a variation may itself complete a signature with what follows
+			s := append(append([]byte(nil), pre...), mkHeader(j%2 == 0)...)
+			rest := r.Bytes(40)
+			gen.ScrubTIFFSig(rest, 0, len(rest))
+			c12Check(c, append(s, rest...), fmt.Sprintf("near miss %q before the header", near))
+			c12Check(c, append(append([]byte(nil), pre...), rest...), fmt.Sprintf("near miss %q, no signature", near))
+			c.Rec.SigHash(core.HashStr(fmt.Sprintf("C|%x", near)))
 		}
 		return
 	}
